@@ -817,6 +817,9 @@ func (st *state) origin(typ string, c *gen.Call) (Val, *Err) {
 			st.reads[[2]string{args[0].S, args[1].S}] = true
 		}
 		b := st.vis.Get(args[0].S, args[1].S)
+		if args[0].S == "world" {
+			b = new(big.Int) // the balance of @world is never looked at (C10)
+		}
 		if b.Sign() < 0 {
 			return Val{}, fail(ENegativeBalance, "%s", args[0].S)
 		}
@@ -826,6 +829,9 @@ func (st *state) origin(typ string, c *gen.Call) (Val, *Err) {
 			st.reads[[2]string{args[0].S, args[1].S}] = true
 		}
 		b := st.vis.Get(args[0].S, args[1].S)
+		if args[0].S == "world" {
+			b = new(big.Int)
+		}
 		return Val{T: TMonetary, S: args[1].S, N: max0(new(big.Int).Neg(b))}, nil
 	}
 }
